@@ -51,11 +51,12 @@ REAL_STUB = {
     "real": ["jinja2 lexer / get_lexer cache / Environment / overlay / get_spontaneous_environment / Template constructor / compiler / runtime"],
     "stub": ["thread scheduler (baton passing on sys.monitoring LINE/INSTRUCTION events)", "threading.Lock -> SimLock"],
 }
-BUDGET = {"quick": 28, "thorough": 600}
+BUDGET = {"quick": 40, "thorough": 600}
 _setup_done = False
 OVERLAY_DELTAS = [
     {}, {"trim_blocks": None}, {"lstrip_blocks": None}, {"keep_trailing_newline": None},
     {"newline_sequence": "\r\n"}, {"autoescape": None}, {"trim_blocks": None, "lstrip_blocks": None},
+    {"extensions": ["jinja2.ext.loopcontrols"]}, {"extensions": ["jinja2.ext.loopcontrols"], "trim_blocks": None},
 ]
 
 
@@ -142,6 +143,9 @@ def run(tape: Tape) -> Outcome:
         g = Gen(tape, syntax=sx, size=1 + tape.draw(2), max_depth=2)
         body = g.body(__import__("sim.workload", fromlist=["Scope"]).Scope(), 1, 1 + tape.draw(2))
         tail = f"\n  {sx.bs} if n1 is defined {sx.be}  \n <{sx.vs} s1 {sx.ve}>\n  {sx.bs} endif {sx.be}\n{sx.cs} c {sx.ce}\nend\n"
+        if tape.draw(8) == 7:
+            # a tag only the loopcontrols extension knows: a syntax error everywhere except in overlays that add it
+            tail += f"{sx.bs} for q in [1, 2, 3] {sx.be}{sx.bs} if q == 2 {sx.be}{sx.bs} break {sx.be}{sx.bs} endif {sx.be}{sx.vs} q {sx.ve}{sx.bs} endfor {sx.be}"
         if tape.draw(6) == 5:
             # a template that needs a loader: every entry point without one must fail the same way
             tail += f"{sx.bs} include 'nope' ignore missing {sx.be}"
